@@ -417,11 +417,13 @@ req_compactor<T, C, A> req_compactor<T, C, A>::deserialize(std::istream& is, con
       comparator, allocator);
 }
 
-// a compactor never has fewer than one section, a section size below MIN_K or a weight beyond 2^63:
+// a compactor never has fewer than one section, a section size that rounds to less than MIN_K
+// (the raw size itself may be as small as 3.0) or a weight beyond 2^63:
 // with zero sections the nominal capacity is zero and the item buffer can never grow
 template<typename T, typename C, typename A>
 void req_compactor<T, C, A>::check_header(float section_size_raw, uint8_t lg_weight, uint8_t num_sections) {
-  if (num_sections == 0 || !(section_size_raw >= req_constants::MIN_K) || lg_weight > 63) {
+  if (num_sections == 0 || !(section_size_raw >= 1 && section_size_raw <= 65536)
+      || nearest_even(section_size_raw) < req_constants::MIN_K || lg_weight > 63) {
     throw std::invalid_argument("Possible corruption: invalid compactor header: section size " + std::to_string(section_size_raw)
         + ", number of sections " + std::to_string(num_sections) + ", lg weight " + std::to_string(lg_weight));
   }
